@@ -194,7 +194,7 @@ PROPS["C07"] = {
     "assumptions": [_M_NOTE, "a Waker is an abstract task id; Waker::{clone, will_wake, wake_by_ref} are intrinsics; the executor re-polls a task whenever its waker was invoked and never otherwise",
                     "a targeted stream whose task returns has answered end-of-stream (the task model returns only on Poll::Ready(None))"],
     "functions": ["<uni channel>::{cancel_all_streams, send, consume, keep_stream_running, register_stream_waker}", "StreamsManagerBase::{cancel_all_streams, cancel_stream, wake_stream, register_stream_waker, keep_stream_running}", "MutinyStream::poll_next", "ring publish/consume"],
-    "m": [M("c07_atomic_cancel_all_vs_first_poll"), M("c07_atomic_cancel_all_vs_parked_k1"), M("c07_full_sync_cancel_all_vs_first_poll"), M("c07_atomic_cancel_one_of_two"), M("c07_multi_arc_atomic_cancel_all_vs_first_poll"), M("c07_multi_arc_atomic_cancel_all_vs_parked_k1"), M("c07_atomic_cancel_all_vs_send", "thorough"),
+    "m": [M("c07_atomic_cancel_all_vs_first_poll"), M("c07_atomic_cancel_all_vs_parked_k0"), M("c07_atomic_cancel_all_vs_parked_k1"), M("c07_full_sync_cancel_all_vs_first_poll"), M("c07_atomic_cancel_one_of_two"), M("c07_multi_arc_atomic_cancel_all_vs_first_poll"), M("c07_multi_arc_atomic_cancel_all_vs_parked_k1"), M("c07_atomic_cancel_all_vs_send", "thorough"),
           M("c07_atomic_cancel_all_two_streams", "thorough"), M("c07_full_sync_cancel_all_vs_send_parked", "thorough"), M("c07_full_sync_cancel_one_of_two_parked", "thorough")],
     "k": [],
 }
